@@ -604,7 +604,7 @@ func (fr *Frame) copyOp(d, s *Value, rt types.Type) *Value {
 	n := c.Name("ncopy", Ite(Le(d.C[2], s.C[2]), d.C[2], s.C[2]))
 	// a copy that overwrites the whole destination: remember the symbolic content
 	var recSeq *SeqV
-	if len(e.layout(el)) == 1 && n.S == d.C[2].S {
+	if len(e.layout(el)) == 1 && sameTerm(n, d.C[2]) {
 		envPre := &SpecEnv{x: x, st: st}
 		func() {
 			defer func() { recover() }()
@@ -1122,6 +1122,7 @@ func (fr *Frame) freshResultMemory(rs *types.Tuple, pre *State, res *Value, fc *
 		markFresh(en.E, func(name string) {
 			if v, ok := fr.freshNames[name]; ok && v != nil && len(v.C) > 0 {
 				declaredFresh[v.C[0].S] = true
+				c.birth[v.C[0].S] = maxIndex(v.C[0].S) // born now (or nil)
 			}
 		})
 	}
